@@ -18,7 +18,8 @@
     contents never influence scheduling); the root result map of a mutation is the local variable
     [slots] of [serial_loop], pre-sized and filled by index exactly as [resultMap.Set(i, ...)].
 
-    The idle handler is an oracle [sigma : round -> outstanding promises -> promises to fulfil]. *)
+    The idle handler is an oracle [sigma : round -> outstanding promises -> promises to fulfil];
+    a request without idle handler is [None]. *)
 From Coq Require Import List NArith ZArith Bool.
 From ApiFu Require Import Base.Sexp Serial.SerialPlan Serial.SerialFuture.
 Import ListNotations.
@@ -28,7 +29,8 @@ Inductive ekind :=
 | KResolve     (* newFieldResolveError: resolver error or promise fulfilled with an error *)
 | KNullNN      (* "Null result for non-null field." *)
 | KBad         (* "Unexpected result…" / "Result is not a list." *)
-| KRaw.        (* the raw error travelling from the promise channel to Then's continuation *)
+| KRaw         (* the raw error travelling from the promise channel to Then's continuation *)
+| KNoIdle.     (* wait: "No idle handler defined." *)
 Record err := mkerr { e_path : list pelem; e_kind : ekind }.
 Definition err_at (p : rpath) (k : ekind) : err := mkerr (slice p) k.
 
@@ -249,6 +251,7 @@ with exec_field (fp : fplan) (p : rpath) (s : st) {struct fp} : fut * st :=
                   | RErr _ => (Err (err_at p KResolve), s)
                   end) s2
       end
+  | FTypename => (Ok GStr, s)      (* executor.go:250-253: resultMap.Set(i, key, objectType.Name); continue *)
   end.
 
 (** completeValue(fieldType, …) with the non-null wrapper *)
@@ -262,34 +265,76 @@ Definition exec_sel (fields : selset) (p : rpath) (s : st) : fut * st :=
 (** wait (executor.go:213-235): [fuel] bounds the idle rounds *)
 Definition wait_fn (r : result) (s : st) : result * st := (r, s).
 
-Fixpoint wait_loop (sigma : sched) (fuel : nat) (f : fut) (s : st) : outcome (result * st) :=
+Fixpoint wait_loop (oh : option sched) (fuel : nat) (f : fut) (s : st) : outcome (result * st) :=
   match f with
   | Ready r => Done (r, s)
   | Pending _ =>
-      match fuel with
-      | O => OutOfFuel s
-      | S n =>
-          match idle sigma s with
-          | None => Stuck s
-          | Some s1 => let '(f1, s2) := poll f s1 in wait_loop sigma n f1 s2
+      match oh with
+      | None => Done (RErr (mkerr [] KNoIdle), s)     (* e.IdleHandler == nil *)
+      | Some sigma =>
+          match fuel with
+          | O => OutOfFuel s
+          | S n =>
+              match idle sigma s with
+              | None => Stuck s
+              | Some s1 => let '(f1, s2) := poll f s1 in wait_loop oh n f1 s2
+              end
           end
       end
   end.
 
-Definition wait (sigma : sched) (fuel : nat) (f : fut) (s : st) : outcome (result * st) :=
+Definition wait (oh : option sched) (fuel : nat) (f : fut) (s : st) : outcome (result * st) :=
   match f with
   | Ready r => Done (r, s)
   | Pending _ =>
       let '(f0, s0) := Map f wait_fn s in
       let '(f1, s1) := poll f0 s0 in
-      wait_loop sigma fuel f1 s1
+      wait_loop oh fuel f1 s1
   end.
 
 (** executeSelections(…, forceSerial = true): the root selection set of a mutation.  Each
     field's future is waited for before the next field starts (executor.go:269-276). *)
 Notation slot := (option (bytes * gval)) (only parsing).     (* None = the zero OrderedMapItem *)
 
-Fixpoint serial_loop (sigma : sched) (fuel : nat) (l : selset) (slots : list slot) (i : nat)
+(** PROPOSED REPAIR, not in the code ([drain = false] is the code that exists;
+    checks/C11.proposed-drain.patch): after the wait for a root field the executor receives from
+    every promise channel it handed to a future and has not received from yet — the promises
+    abandoned by an early error return — calling the idle handler until none is left. *)
+Definition recv_all (s : st) : st :=
+  with_proms (map (fun pr => match p_st pr with PSent => set_pst PRecv pr | _ => pr end) (s_proms s)) s.
+Definition all_recv (s : st) : bool :=
+  forallb (fun pr => match p_st pr with PRecv => true | _ => false end) (s_proms s).
+
+Fixpoint drain_loop (oh : option sched) (fuel : nat) (s : st) : outcome st :=
+  let s1 := recv_all s in
+  if all_recv s1 then Done s1
+  else match oh with
+       | None => Done s1
+       | Some sigma =>
+           match fuel with
+           | O => OutOfFuel s1
+           | S n => match idle sigma s1 with
+                    | None => Stuck s1
+                    | Some s2 => drain_loop oh n s2
+                    end
+           end
+       end.
+
+Definition drain_after (drain : bool) (oh : option sched) (fuel : nat) (o : outcome (result * st))
+  : outcome (result * st) :=
+  match o with
+  | Done (r, s3) =>
+      if drain then
+        match drain_loop oh fuel s3 with
+        | Done s4 => Done (r, s4)
+        | Stuck s' => Stuck s'
+        | OutOfFuel s' => OutOfFuel s'
+        end
+      else o
+  | _ => o
+  end.
+
+Fixpoint serial_loop (drain : bool) (oh : option sched) (fuel : nat) (l : selset) (slots : list slot) (i : nat)
          (p : rpath) (s : st) : outcome (option err * list slot * st) :=
   match l with
   | [] => Done (None, slots, s)
@@ -297,18 +342,18 @@ Fixpoint serial_loop (sigma : sched) (fuel : nat) (l : selset) (slots : list slo
       let ip := PKey key :: p in
       let '(f, s1) := exec_field fp ip s in
       let '(f1, s2) := catch_if_nullable (fp_nn fp) f s1 in
-      match wait sigma fuel f1 s2 with
+      match drain_after drain oh fuel (wait oh fuel f1 s2) with
       | Done (RErr e, s3) => Done (Some e, slots, s3)
       | Done (ROk v, s3) =>
-          serial_loop sigma fuel tl (upd_nth i (fun _ => Some (key, v)) slots) (S i) p s3
+          serial_loop drain oh fuel tl (upd_nth i (fun _ => Some (key, v)) slots) (S i) p s3
       | Stuck s' => Stuck s'
       | OutOfFuel s' => OutOfFuel s'
       end
   end.
 
-Definition exec_sel_serial (sigma : sched) (fuel : nat) (fields : selset) (p : rpath) (s : st)
+Definition exec_sel_serial (drain : bool) (oh : option sched) (fuel : nat) (fields : selset) (p : rpath) (s : st)
   : outcome (fut * list slot * st) :=
-  match serial_loop sigma fuel fields (repeat None (length fields)) 0 p s with   (* NewOrderedMapWithLength *)
+  match serial_loop drain oh fuel fields (repeat None (length fields)) 0 p s with   (* NewOrderedMapWithLength *)
   | Done (Some e, slots, s1) => Done (Err e, slots, s1)
   | Done (None, slots, s1) => Done (MapOkValue (After []) GObj, slots, s1)
   | Stuck s' => Stuck s'
@@ -338,19 +383,19 @@ Definition finish (slots : list slot) (rs : result * st) : resp :=
          r_events := s_evs s; r_proms := s_proms s |}
   end.
 
-Definition run (sigma : sched) (md : mode) (fuel : nat) (root : selset) : outcome resp :=
+Definition run_gen (drain : bool) (oh : option sched) (md : mode) (fuel : nat) (root : selset) : outcome resp :=
   match md with
   | Query =>
       let '(f, s1) := exec_sel root [] st0 in
-      match wait sigma fuel f s1 with
+      match wait oh fuel f s1 with
       | Done rs => Done (finish [] rs)
       | Stuck s' => Stuck s'
       | OutOfFuel s' => OutOfFuel s'
       end
   | Mutation =>
-      match exec_sel_serial sigma fuel root [] st0 with
+      match exec_sel_serial drain oh fuel root [] st0 with
       | Done (f, slots, s1) =>
-          match wait sigma fuel f s1 with
+          match wait oh fuel f s1 with
           | Done rs => Done (finish slots rs)
           | Stuck s' => Stuck s'
           | OutOfFuel s' => OutOfFuel s'
@@ -359,6 +404,9 @@ Definition run (sigma : sched) (md : mode) (fuel : nat) (root : selset) : outcom
       | OutOfFuel s' => OutOfFuel s'
       end
   end.
+
+(** the code that exists: no drain *)
+Definition run := run_gen false.
 
 (** the global resolver log of a run, whether or not it returned *)
 Definition log_of (o : outcome resp) : list event :=
@@ -391,6 +439,7 @@ with count_async_f (f : fplan) : nat :=
   match f with
   | FP tag _ res => (match tag with Some _ => 1 | None => 0 end) +
                     (match res with Some v => count_async_v v | None => 0 end)
+  | FTypename => 0
   end.
 Definition count_async (sel : selset) : nat := count_async_v (VObj sel).
 
